@@ -26,6 +26,7 @@ func checkC02(c *Ctx, r *Report) {
 	c02process(c, r, "C02-process")
 	closeRule(c, r, "C02-close")
 	storeErrRule(c, r, "C02-store")
+	c02Extra(c, r)
 
 	// ---- C02-dedup
 	r.Rule("C02-dedup", 1, "Reject only on the file-exists edge")
